@@ -139,9 +139,31 @@ fn gen(rng: &mut Rng, idx: u64, _tier: Tier) -> Case {
         lines.push((gen::gap_us(rng, d).min(12_000_000), gen::line_of(rng, &f, false), format!("{:?}", k).to_lowercase()));
     }
     let ch = if rng.chance(0.8) { Chunking::Line } else { Chunking::Pieces };
-    let ops = gen::ops_of(rng, lines, ch);
-    let mut script = Script::file(args, ops);
-    script.tcp = rng.chance(0.3);
+    // the stream may end without a final newline - and the unterminated last line may be a damaged squitter
+    let unterminated = rng.chance(0.25);
+    if unterminated {
+        if rng.chance(0.6) {
+            let a = rng.below(acs.len() as u64) as usize;
+            let k = *rng.pick(&[Kind::Df11, Kind::Ident, Kind::AirPos, Kind::Df18]);
+            let mut f = gen::frame(rng, &mut acs[a], k, true);
+            let nb = f.len() * 8;
+            modes::flip_bit(&mut f, rng.range(9, nb as i64) as usize);
+            if modes::syndrome(&f) >> 7 == 0 { modes::flip_bit(&mut f, 20); }
+            lines.push((0, gen::line_of(rng, &f, false), "corrupt:bitflip-1".into()));
+        }
+        if let Some(l) = lines.last_mut() { if l.1.ends_with(b"\n") { l.1.pop(); } }
+    }
+    let mut ops = gen::ops_of(rng, lines, ch);
+    let tcp = rng.chance(0.3);
+    if unterminated || rng.chance(0.3) { ops.push(crate::script::Op::Eof { dt_us: 0 }); }
+    let mut script = Script::file(args, vec![]);
+    script.tcp = tcp;
+    if tcp && unterminated {
+        // a TCP script ends with the simulation, not with EOF: close this connection and open an idle last one
+        script.conns = vec![crate::script::Conn::Accept { ops }, crate::script::Conn::Accept { ops: vec![] }];
+    } else {
+        script.conns = vec![crate::script::Conn::Accept { ops }];
+    }
     Case { property: "C04".into(), mode: String::new(), script, args_b: None, log_level_b: None, meta: serde_json::Value::Null }
 }
 
